@@ -2,12 +2,15 @@
 // Batch, SetInternal, Search with and without deadline, SearchInContext with a context cancelled at
 // a random moment, Document, DocCount, FieldDict, Fields, GetInternal, Stats/StatsMap, ForceMerge
 // via Advanced(), CopyTo) while Close is issued at a random moment (also several concurrent and
-// repeated Close calls), with seeded delays at the scorch hook points.  Every run happens in a CHILD
-// process (this binary, VH_CHILD set) built with -race, so that a data-race report, a runtime
-// fatal error or a hang of the whole process is observed by the parent.
+// repeated Close calls), with seeded delays at the scorch hook points.  A second kind of run
+// ("backup") is about online backups: several goroutines call CopyTo at the same moment, again and
+// again, while writers and forced merges give the merger and the purger work.  Every run happens in
+// a CHILD process (this binary, VH_CHILD set) built with -race, so that a data-race report, a
+// runtime fatal error or a hang of the whole process is observed by the parent.
 //
 // Watched on the implementation alone (vh.Direct): panic, data race (exit code 66 / "WARNING: DATA
-// RACE"), a call or Close outliving the watchdog, goroutines left after Close, a cancelled search
+// RACE" / the runtime's "fatal error: concurrent map writes"), any other runtime fatal error, a call
+// or Close outliving the watchdog, goroutines left after Close, a cancelled search
 // that takes too long.  Sent to Coq: the per-goroutine log of (operation, phase, result class)
 // judged by Protocol/Corr.v's spec, the deterministic cancellation experiment judged by the
 // collector model, and (scorch-disk) the hook-event trace judged by the protocol monitor.
@@ -50,6 +53,10 @@ type In struct {
 	Copiers     int `json:"copiers,omitempty"`
 	Writers     int `json:"writers,omitempty"`
 	WriterNapUS int `json:"writer_nap_us,omitempty"`
+	// the reading goroutine also forces merges.  The hook-event trace of such a run is not handed to
+	// the protocol monitor: a ForceMerge request wakes the merger without the persister's
+	// notification, and the monitor's instance (CorrTrace.trace_ok) has no ForceMerge callers
+	ForceMerges bool `json:"force_merges,omitempty"`
 }
 
 type opRec struct {
@@ -120,20 +127,6 @@ func gen(f vh.Flags, r *vrand.R, emit func(In)) {
 		emit(In{Mode: "stress", Layout: l, Workers: r.Range(5, 8), Seed: r.U64(), DelayUS: vrand.Pick(r, []int{0, 100, 400, 1500}),
 			CloseMS: r.Range(120, 700), Closers: vrand.Pick(r, []int{1, 1, 2, 3}), LateClose: r.Chance(1, 2), Preload: r.Range(10, 60)})
 	}
-	// concurrent online backups: 3-4 goroutines call CopyTo in tight loops (every other call entered
-	// together) while writers with small persister / merge-plan options and forced merges keep the
-	// merger and the purger busy (files that left the root are what removeOldZapFiles looks up in the
-	// backup reference counts); then Close
-	bopts := []int{3, 2, 3, 4}
-	nb := f.N(2, 32)
-	for k := 0; k < nb; k++ {
-		cp := 3 + k%2
-		wr := 2 + r.Intn(2)
-		emit(In{Mode: "backup", Layout: sw.Layout{Config: "scorch-disk", Opts: bopts[k%len(bopts)], Unsafe: k%2 == 1, Keep: 1},
-			Workers: cp + wr + 1, Copiers: cp, Writers: wr, WriterNapUS: vrand.Pick(r, []int{500, 2000, 4000}), Seed: r.U64(),
-			DelayUS: vrand.Pick(r, []int{0, 0, 100}), CloseMS: r.Range(900, 1400), Closers: vrand.Pick(r, []int{1, 2}), LateClose: r.Chance(1, 2),
-			Preload: r.Range(10, 40)})
-	}
 	// Close issued exactly at a rendezvous of the background loops (the goroutine at the hook is held)
 	points := []struct {
 		p      string
@@ -156,6 +149,21 @@ func gen(f vh.Flags, r *vrand.R, emit func(In)) {
 	}
 	// the DropFileWriterIDs error path (outside C11's operation list; its own class)
 	emit(In{Mode: "dropwriter", Layout: sw.Layout{Config: "scorch-disk", Unsafe: true}, Seed: r.U64()})
+	// (emitted last: the inputs above are the same as before this kind of run existed)
+	// concurrent online backups: 3-4 goroutines call CopyTo in tight loops (two calls of three entered
+	// together) while writers with small persister / merge-plan options and forced merges keep the
+	// merger and the purger busy (files that left the root are what removeOldZapFiles looks up in the
+	// backup reference counts); then Close
+	bopts := []int{3, 3, 2, 3, 4, 3} // 3: the persister runs the purger in every round
+	nb := f.N(2, 32)
+	for k := 0; k < nb; k++ {
+		cp := 3 + k%2
+		wr := 2 + r.Intn(2)
+		emit(In{Mode: "backup", Layout: sw.Layout{Config: "scorch-disk", Opts: bopts[k%len(bopts)], Unsafe: k%2 == 1, Keep: 1},
+			Workers: cp + wr + 1, Copiers: cp, Writers: wr, ForceMerges: k%2 == 0, WriterNapUS: vrand.Pick(r, []int{500, 2000, 4000}), Seed: r.U64(),
+			DelayUS: vrand.Pick(r, []int{0, 0, 100}), CloseMS: r.Range(500, 900), Closers: vrand.Pick(r, []int{1, 2}), LateClose: r.Chance(1, 2),
+			Preload: r.Range(10, 40)})
+	}
 }
 
 func exec1(in In) vh.Result {
@@ -254,7 +262,7 @@ func exec1(in In) vh.Result {
 			return cf.ListOf(l, func(o opRec) cf.T { return cf.App("Op", cf.T(opNames[o.K]), cf.Int(o.Ph), cf.Int(o.R)) })
 		})
 		cases := []cf.T{cf.App("CLog", logs)}
-		if in.Layout.Config == "scorch-disk" && len(out.Events) > 0 {
+		if in.Layout.Config == "scorch-disk" && len(out.Events) > 0 && !(in.Mode == "backup" && in.ForceMerges) {
 			cases = append(cases, cf.App("CTrace", cf.Bool(out.Safe), cf.ListOf(out.Events, evTerm)))
 			res.Hist = append(res.Hist, "traced")
 		}
@@ -269,10 +277,10 @@ func exec1(in In) vh.Result {
 			res.Hist = append(res.Hist, fmt.Sprintf("closed_at:%s=%v", in.Point, out.ClosedAtHook))
 			res.Nontrivial = out.ClosedAtHook
 		} else if in.Mode == "backup" {
-			res.Hist = append(res.Hist, fmt.Sprintf("backup:copies~%d", out.CopiesOK/20*20), fmt.Sprintf("backup:sync_rounds>=3=%v", out.SyncRounds >= 3),
+			res.Hist = append(res.Hist, fmt.Sprintf("backup:copies~%d", out.CopiesOK/20*20), fmt.Sprintf("backup:sync_rounds>=2=%v", out.SyncRounds >= 2),
 				fmt.Sprintf("backup:max_in_flight=%d", out.MaxFlight), fmt.Sprintf("backup:purger_removed_files=%v", out.ZapRemoved > 0),
 				fmt.Sprintf("backup:merges>0=%v", out.Merges > 0))
-			res.Nontrivial = out.SyncRounds >= 3 && out.MaxFlight >= 2 && out.ZapRemoved > 0 && out.PostCloseOps >= 3
+			res.Nontrivial = out.SyncRounds >= 2 && out.MaxFlight >= 2 && out.ZapRemoved > 0 && out.PostCloseOps >= 3
 		} else {
 			res.Nontrivial = out.PostCloseOps >= 3 && out.OverlapOps >= 1
 		}
@@ -404,9 +412,9 @@ func main() {
 		CheckFn:   "CorrTrace.check",
 		ExplainFn: "CorrTrace.explain",
 		Rule: "stress: 5-8 goroutines issue random public operations (Index, Delete, Batch, SetInternal, Search, Search with a 0-3 ms deadline, SearchInContext cancelled after 0-500 us, Document, DocCount, FieldDict, Fields, GetInternal, Stats/StatsMap, ForceMerge via Advanced, CopyTo) on scorch-disk (4 option variants, safe/unsafe), scorch-mem and upsidedown (gtreap, moss, boltdb), with seeded delays of up to 1.5 ms at every scorch hook point; Close is issued after 120-700 ms by 1-3 concurrent closers, optionally once more afterwards, and the workers go on for at least 3 operations each after it returned; every run is a child process built with -race. " +
-			"backup (scorch-disk, small persister / merge-plan options, numSnapshotsToKeep 1): 3-4 goroutines call CopyTo to distinct directories in tight loops, every other call entered together through a gate, while 2-3 writers issue small batches, updates, deletions and forced merges (pausing up to 0.5-4 ms) and one goroutine reads; Close after 0.9-1.4 s, all go on for at least 4 operations afterwards; a runtime 'fatal error: concurrent map ...' of the child counts as a data race. " +
+			"backup (scorch-disk, small persister / merge-plan options, numSnapshotsToKeep 1): 3-4 goroutines call CopyTo to distinct directories in tight loops, two calls of three entered together through a gate, while 2-3 writers issue small batches, updates and deletions (pausing up to 0.5-4 ms) and one goroutine searches, counts and (every other run; the hook-event trace of the runs without forced merges goes to the protocol monitor) forces merges; Close after 0.5-0.9 s (later, up to 2 s, while fewer than 4 rounds of copiers entering together or fewer than 2 files removed by the purger have been seen), all go on for at least 4 operations afterwards; a runtime 'fatal error: concurrent map ...' of the child counts as a data race. " +
 			"close-at: Close is issued exactly when a background loop reaches a named hook point (persist_prepared, merge_start, persist_pick, ...) and that goroutine is held for 40 ms. cancel: n = 1100-3300 matching documents, the context is cancelled by the hit handler at its c-th call; handled hits and the result are compared with the collector model. " +
-			"Non-trivial: (stress) at least 3 operations were started after Close returned and at least one overlapped it; (backup) at least 3 rounds in which all copiers entered CopyTo together, at least 2 CopyTo calls in progress at one moment, the purger removed at least one segment file during the run and at least 3 operations were started after Close returned; (close-at) Close was issued at the hook; (cancel) the search was cancelled",
+			"Non-trivial: (stress) at least 3 operations were started after Close returned and at least one overlapped it; (backup) at least 2 rounds in which all copiers entered CopyTo together, at least 2 CopyTo calls in progress at one moment, the purger removed at least one segment file during the run and at least 3 operations were started after Close returned; (close-at) Close was issued at the hook; (cancel) the search was cancelled",
 		ShardSize: 4,
 		Workers:   2,
 	}, gen, exec1)
